@@ -114,17 +114,24 @@ theorem step_LI {N d T : Nat} {t0 : Int} {k : Nat} {st : St σ} (h : LI N d T t0
   · show k * (TB.aggD N + TB.aggD N) + TB.aggD N + TB.aggD N = (k + 1) * (TB.aggD N + TB.aggD N)
     omega
 
-/-- **The main loop does not fault**: from a state satisfying the loop invariant, with the
-    iteration cap `N` set, the loop never stops on a fault. -/
-theorem loop_LI {N d T : Nat} {t0 : Int} (args : Args) (hcap : args.maxSimIterations = N)
+/-- the run is capped at `N` iterations: by `max_sim_iterations = N`, or — with both output
+    filters off, so that every iteration records its event — by `max_trace_length = N` -/
+def CappedAt (args : Args) (N : Nat) : Prop :=
+  args.maxSimIterations = N ∨
+  (args.maxTraceLength = N ∧ args.onlyClientEvents = false ∧ args.onlyNetworkActivity = false)
+
+/-- **The main loop does not fault**: from a state satisfying the loop invariant, with a cap of
+    `N` iterations (see `CappedAt`), the loop never stops on a fault. -/
+theorem loop_LI {N d T : Nat} {t0 : Int} (args : Args) (hcap : CappedAt args N)
     (ht0 : -(d : Int) ≤ t0) (hg : (N + 2) * TB.span N T d ≤ durMax) :
     ∀ (fuel : Nat) (st : St σ) (iters cnt : Nat), LI N d T t0 iters st → iters < N →
+    (args.maxSimIterations = N ∨ cnt = iters) →
     ∀ f, (loop ρ args fuel st iters cnt).stop ≠ .fault f := by
   intro fuel
   induction fuel with
-  | zero => intro st iters cnt _ _ f h; simp [loop] at h
+  | zero => intro st iters cnt _ _ _ f h; simp [loop] at h
   | succ n ih =>
-    intro st iters cnt hli hlt f h
+    intro st iters cnt hli hlt hrel f h
     have hst := step_LI ρ hli hlt ht0 hg
     have htot := step_total ρ hli.1.slotsOK
     cases hs : step ρ st with
@@ -146,17 +153,30 @@ theorem loop_LI {N d T : Nat} {t0 : Int} (args : Args) (hcap : args.maxSimIterat
           repeat (first | cases hstop | split at hstop)
         | none =>
           simp only [hstop] at h
-          have hlt' : iters + 1 < N := by
+          have hnext : iters + 1 < N ∧ (args.maxSimIterations = N ∨ bump args r cnt = iters + 1) := by
             unfold stopCheck at hstop
             split at hstop
             · cases hstop
-            · split at hstop
+            · rename_i hnt
+              split at hstop
               · cases hstop
               · rename_i hni
-                rw [hcap] at hni
-                simp only [Bool.and_eq_true, decide_eq_true_eq, not_and, Nat.not_le] at hni
-                exact hni (by omega)
-          exact ih st' (iters + 1) (bump args r cnt) (hst.2 r st' hs) hlt' f h
+                rcases hrel with hrel | hrel
+                · rw [hrel] at hni
+                  simp only [Bool.and_eq_true, decide_eq_true_eq, not_and, Nat.not_le] at hni
+                  exact ⟨hni (by omega), Or.inl hrel⟩
+                · rcases hcap with hcap | ⟨hc1, hc2, hc3⟩
+                  · rw [hcap] at hni
+                    simp only [Bool.and_eq_true, decide_eq_true_eq, not_and, Nat.not_le] at hni
+                    exact ⟨hni (by omega), Or.inl hcap⟩
+                  · have hb : bump args r cnt = cnt + 1 := by
+                      unfold bump Args.keep Sim.keep
+                      simp [hc2, hc3]
+                    rw [hc1, hb] at hnt
+                    simp only [Bool.and_eq_true, decide_eq_true_eq, not_and, Nat.not_le] at hnt
+                    have := hnt (by omega)
+                    exact ⟨by omega, Or.inr (by omega)⟩
+          exact ih st' (iters + 1) (bump args r cnt) (hst.2 r st' hs) hnext.1 hnext.2 f h
 
 /-! ### the initial state -/
 
@@ -259,21 +279,21 @@ theorem initState_LI {mc ms : List Machine} (hmc : MachinesOK mc) (hms : Machine
 
 /-- **Totality of `sim_advanced` with machines** (general queue): accepted machines and
     fractions, a non-empty queue of trace packets with times in `[-d, T]`, a packets-per-second
-    limit of at least 1, the iteration cap `N ≥ 1` set, and `(N + 2) · span N T d ≤ Duration::MAX`:
+    limit of at least 1, a cap of `N ≥ 1` iterations (`CappedAt`), and `(N + 2) · span N T d ≤ Duration::MAX`:
     the run does not fault, for every oracle. -/
 theorem simAdvanced_no_fault (budget : Nat) {mc ms : List Machine} (hmc : MachinesOK mc) (hms : MachinesOK ms)
     {sq : SimQueue} {a : Args} {N d T : Nat} (hq : QueueOK sq (-(d : Int)) (T : Int))
     (hfrac : Validate.fracOK a.fpClient = true ∧ Validate.fracOK a.fbClient = true ∧
       Validate.fracOK a.fpServer = true ∧ Validate.fracOK a.fbServer = true)
     (hd : a.network.delay = d) (hpps : 1 ≤ effPps a.network sq.maxPps)
-    (hcap : a.maxSimIterations = N) (hN : 0 < N) (hg : (N + 2) * TB.span N T d ≤ durMax) (orc : σ) :
+    (hcap : CappedAt a N) (hN : 0 < N) (hg : (N + 2) * TB.span N T d ≤ durMax) (orc : σ) :
     ∀ f, (simAdvanced ρ budget mc ms sq a orc).stop ≠ .fault f := by
   obtain ⟨t0, st, hi, ht0, hli⟩ := initState_LI ρ hmc hms (N := N) hq hfrac hd hpps orc
   intro f
   unfold simAdvanced
   simp only [hi]
   rw [finish_stop]
-  exact loop_LI ρ a hcap ht0 hg (loopFuel a budget) st 0 0 hli hN f
+  exact loop_LI ρ a hcap ht0 hg (loopFuel a budget) st 0 0 hli hN (Or.inr rfl) f
 
 end
 
